@@ -82,6 +82,8 @@ type Frame struct {
 	spec     *FuncSpec
 	loops    map[*ssa.BasicBlock]*loopInfo
 	escapes  map[*ssa.Alloc]bool
+	snaps       map[string]*State
+	oldOverride *State
 }
 
 type loopInfo struct {
@@ -799,6 +801,17 @@ func (e *Exec) siteAsserts(fr *Frame, st *State, pos token.Pos, kind int) {
 		return
 	}
 	pp := e.eng.fset.Position(pos)
+	if kind == 1 {
+		// snapshot points for "since call k f": the state just before that call
+		for _, a := range fr.spec.Asserts {
+			if a.SinceCallee != "" && a.SinceFile == pp.Filename && a.SinceOff == pp.Offset {
+				if fr.snaps == nil {
+					fr.snaps = map[string]*State{}
+				}
+				fr.snaps[fmt.Sprintf("%s:%d", a.SinceFile, a.SinceOff)] = st.clone()
+			}
+		}
+	}
 	for _, a := range fr.spec.Asserts {
 		switch kind {
 		case 0:
@@ -815,7 +828,15 @@ func (e *Exec) siteAsserts(fr *Frame, st *State, pos token.Pos, kind int) {
 			}
 		}
 		if a.File == pp.Filename && a.Off == pp.Offset {
+			if a.SinceCallee != "" {
+				snap := fr.snaps[fmt.Sprintf("%s:%d", a.SinceFile, a.SinceOff)]
+				if snap == nil {
+					e.fail("assert %s: the 'since' call was not executed before the assertion", a.Clause.Label)
+				}
+				fr.oldOverride = snap
+			}
 			t := e.evalClauseAt(fr, a.Clause, st, nil)
+			fr.oldOverride = nil
 			e.oblige(st, "assert", "assert:"+a.Clause.Label, t, pos)
 		}
 	}
